@@ -1,4 +1,5 @@
 """C08 Shared-memory buffer: structural clauses decided with the term dataflow."""
+import os
 from plint import symx
 from plint.symx import C, norm, SymFlow, FState, term_mentions, site_of
 from plint.ir import strip_casts, line, show, calls, cv, root_var, walk, true_edge_guards
@@ -277,7 +278,17 @@ def run(prog, rep):
     fn, r = ops["p_shm_buffer_clear"]
     fills = [c for c in r["copies"] if c[0] == "fill"]
     okc = len(fills) == 1 and fills[0][1] == C(0) and fills[0][2] == C(0)
-    rep.ob("C08.2", fn, "clear", okc, "clear zero-fills the segment from offset 0 (both positions become 0)" if okc else "clear does not zero-fill the segment from its start", fn.loc[0])
+    msgc = "clear does not zero-fill the segment from its start"
+    if okc:
+        # ... and far enough: the whole segment as the shm layer reports it, or at least the 16-byte header holding both positions
+        ln_t = norm(fills[0][3])
+        terms_, const_ = symx._sum_terms(ln_t)
+        whole = ln_t[0] == "call" and ln_t[1] == "p_shm_get_size"
+        header = const_ >= 16 and all(sg > 0 for (sg, x) in terms_)
+        if not (whole or header):
+            okc, msgc = False, ("line %d: clear zero-fills only %s bytes from the segment start: unless that is at least the 16-byte header, the write position "
+                                "(or part of a position word) survives and every handle still sees a non-empty buffer" % (fills[0][5], symx.show(ln_t)))
+    rep.ob("C08.2", fn, "clear", okc, "clear zero-fills the segment from offset 0 over its whole reported size (both positions become 0)" if okc else msgc, fills[0][5] if fills else fn.loc[0])
     rep.floor("C08.2", 3)
 
     # ---- C08.3 ----------------------------------------------------------------------
@@ -716,6 +727,10 @@ def is_min(t, a, b):
 RENAME_LOCALS = ['src/pshmbuffer.c']
 
 SELFTEST = [
+    dict(id="clear-fills-ring-size-only", file="src/pshmbuffer.c", expect="C08.2",
+         old="\tmemset (addr, 0, size);", new="\tmemset (addr, 0, buf->size);"),
+    dict(id="clear-fills-header-and-ring-neutral", file="src/pshmbuffer.c", expect=None,
+         old="\tmemset (addr, 0, size);", new="\tmemset (addr, 0, P_SHM_BUFFER_DATA_OFFSET + buf->size);"),
     dict(id="shm-reported-size-grows", file="src/pshm-posix.c", expect="C08.4", site="bounded",
          old="\tif (P_LIKELY (ret->size > size && size != 0))\n\t\tret->size = size;", new="\tif (P_LIKELY (size != 0))\n\t\tret->size = size;"),
     dict(id="shm-reported-size-guard-flipped-neutral", file="src/pshm-posix.c", expect=None,
